@@ -805,7 +805,11 @@ func initUsers() (auth *Auth, err error) {
 		return nil, errors.Error("initializing auth module failed")
 	}
 
-	config.Users = nil
+	// Don't empty config.Users here.  The list in the configuration is only
+	// refreshed from the authentication module when there is one, and when the
+	// configuration is saved during the shutdown, after the module has been
+	// closed, an empty list would be written to the file, leaving the next
+	// start without any users, and thus without authentication.
 
 	return auth, nil
 }
